@@ -4,6 +4,7 @@
 (*   model_match : digest = reference digest of concretise(what the spec says was fed)          *)
 (*   raw_match   : digest = reference digest of the raw content                                 *)
 (*   norm_match  : digest = reference digest of the CRLF->LF normalised content                 *)
+(*   wu          : units covered by the 512-byte window (2: 256-byte units; 1: the 32 KiB units of the file-level calls)  *)
 (*   lf_equal    : the LF variant of the content, hashed the same way in one read, has the same digest *)
 EXTENDS HashStream, Json, IOUtils
 Recs == JsonDeserialize(IOEnv.TRACE_FILE)
@@ -16,6 +17,7 @@ Judge ==
     i = 0 \/
     LET r == Recs[i]
         c == r.content
+        TextC(x) == TextChunkW(x, r.wu)     \* the record says how many of its units the 512-byte window covers
     IN /\ (r.model_match \/ Say("DIVERGENCE", r.api))
        /\ (r.out_ok \/ Say("VERDICT", "PassThroughAltered"))
        \* a digest asked for part-way is the digest of what was fed so far (C14_SoFar) and does not stop the hashing
@@ -24,6 +26,6 @@ Judge ==
              /\ (r.raw_match \/ Say("VERDICT", "DigestDependsOnChunkingOrWrong"))
              /\ (r.count_ok \/ Say("VERDICT", "CountWrong")))
        /\ ((r.stream = "legacy" /\ r.one_read) =>
-             /\ ((IF c # <<>> /\ TextChunk(c) THEN r.norm_match ELSE r.raw_match) \/ Say("VERDICT", "LegacyOneReadDigest"))
-             /\ (((c # <<>> /\ TextChunk(c)) => r.lf_equal) \/ Say("VERDICT", "CRLFandLFVariantsDiffer")))
+             /\ ((IF c # <<>> /\ TextC(c) THEN r.norm_match ELSE r.raw_match) \/ Say("VERDICT", "LegacyOneReadDigest"))
+             /\ (((c # <<>> /\ TextC(c)) => r.lf_equal) \/ Say("VERDICT", "CRLFandLFVariantsDiffer")))
 =============================================================================
